@@ -488,6 +488,9 @@ func runSrcFamilyN(c *vf.Check, cases []srcCase, callsOf func(i int) int, o srcO
 			if o.Box {
 				elem = boxElem(o)
 			}
+			if o.Form == "hygiene" {
+				all.WriteString("// the element type of the generators of this package; their first parameter has the same name\ntype a = int\n\n")
+			}
 			all.WriteString("var All = map[int]func(*rt.Rec, int, int) " + api + "Iter[" + elem + "]{\n")
 			for _, i := range live {
 				fmt.Fprintf(&all, "\t%d: G%d,\n", i, i)
